@@ -958,13 +958,19 @@ where
 pub struct ExpandIncludeFile<'a> {
     cwd: &'a Path,
     stack: Vec<OsString>,
+    /// Number of `@file` arguments seen so far.
+    at_files: usize,
 }
+
+/// gcc gives up ("too many @-files encountered") at the 2000th `@file` argument.
+const MAX_AT_FILES: usize = 2000;
 
 impl<'a> ExpandIncludeFile<'a> {
     pub fn new(cwd: &'a Path, args: &[OsString]) -> Self {
         ExpandIncludeFile {
             stack: args.iter().rev().map(|a| a.to_owned()).collect(),
             cwd,
+            at_files: 0,
         }
     }
 }
@@ -979,6 +985,14 @@ impl Iterator for ExpandIncludeFile<'_> {
                 Some(arg) => self.cwd.join(arg),
                 None => return Some(arg),
             };
+
+            // A response file that names itself (directly or through others)
+            // would be expanded for ever. Stop where gcc stops and leave the
+            // argument alone, so that the compiler reports its own error.
+            self.at_files = self.at_files.saturating_add(1);
+            if self.at_files >= MAX_AT_FILES {
+                return Some(arg);
+            }
 
             // According to gcc [1], @file means:
             //
